@@ -272,6 +272,21 @@ def assemble(prop, tier, seed, unit_results, fn_results, wall):
     known_hits = []
     spurious = []
     seen_names = {}
+    # one report per named obligation: the same clause refuted on several paths of a unit is one violation (the witness
+    # with a confirmed native replay is preferred); the number of refuted paths is kept in the replay file
+    grouped = {}
+    for v in violations:
+        key = (v["kind"], v["obligation"])
+        g = grouped.get(key)
+        if g is None:
+            grouped[key] = v
+            v["also_refuted_on_paths"] = 0
+        else:
+            g["also_refuted_on_paths"] += 1
+            if (v.get("replay") or {}).get("status") == "confirmed" and (g.get("replay") or {}).get("status") != "confirmed":
+                v["also_refuted_on_paths"] = g["also_refuted_on_paths"]
+                grouped[key] = v
+    violations = list(grouped.values())
     for v in violations:
         rep = v.get("replay") or {}
         status = rep.get("status")
@@ -284,7 +299,7 @@ def assemble(prop, tier, seed, unit_results, fn_results, wall):
         rpath = os.path.join(rdir, fname)
         with open(rpath, "w") as fh:
             json.dump({"property": prop, "obligation": v["obligation"], "kind": v["kind"], "unit": v["unit"],
-                       "target": v.get("target"), "solver": v["solver"], "counter_model": v.get("model"), "replay": rep,
+                       "target": v.get("target"), "solver": v["solver"], "counter_model": v.get("model"), "replay": rep, "also_refuted_on_paths": v.get("also_refuted_on_paths", 0),
                        "how_to_rerun": f"./check {prop} --only '{v['unit']}'"}, fh, indent=1, default=str)
         if hit is not None:
             known_hits.append((hit, v))
